@@ -13,7 +13,7 @@ Export ListNotations.
 Local Open Scope N_scope.
 
 Record step := { s_t : nat; s_ran : bool; s_tag : N; s_holders : list nat; s_path : bool }.
-Record case := { c_n : nat; c_steps : list step }.
+Record case := { c_n : nat; c_steps : list step; c_db : list dbop }.
 
 Definition pc_tag (p : pc) : N :=
   match p with
@@ -48,11 +48,22 @@ Fixpoint agree (g : gstate) (steps : list step) : bool :=
       agree g' r
   end.
 
+(** Database-level cases ([c_db]): the model of [DB.Close] is "every other file first, the
+    directory lock last": the recorded operations must be operations on other files followed
+    by operations on LOCK only. *)
+Fixpoint db_shape (released : bool) (ops : list dbop) : bool :=
+  match ops with
+  | [] => true
+  | (lock, _) :: r => (negb released || lock) && db_shape (released || lock) r
+  end.
+
 Definition check (c : case) : verdict :=
-  mk_verdict (negb (agree (init (c_n c)) (c_steps c)))
-             (negb (exclusive_trace_b (map s_holders (c_steps c))))
+  mk_verdict (negb (agree (init (c_n c)) (c_steps c) && db_shape false (c_db c)))
+             (negb (exclusive_trace_b (map s_holders (c_steps c)) && close_held_b false (c_db c)))
              0.
 
 Definition S (t : N) (ran : bool) (tag : N) (hs : list N) (path : bool) : step :=
   {| s_t := N.to_nat t; s_ran := ran; s_tag := tag; s_holders := map N.to_nat hs; s_path := path |}.
-Definition Cs (n : N) (steps : list step) : case := {| c_n := N.to_nat n; c_steps := steps |}.
+Definition Cs (n : N) (steps : list step) : case := {| c_n := N.to_nat n; c_steps := steps; c_db := [] |}.
+Definition D (lock intr : bool) : dbop := (lock, intr).
+Definition CsDb (ops : list dbop) : case := {| c_n := 0; c_steps := []; c_db := ops |}.
